@@ -122,6 +122,24 @@ impl Probe<'_> {
     }
 }
 
+/// A writer that accepts at most `limit` bytes per `write` call (and says so), as sockets and pipes do.
+struct ShortWriter {
+    out: Vec<u8>,
+    limit: usize,
+}
+
+impl std::io::Write for ShortWriter {
+    fn write(&mut self, buf: &[u8]) -> std::io::Result<usize> {
+        let n = buf.len().min(self.limit);
+        self.out.extend_from_slice(&buf[..n]);
+        Ok(n)
+    }
+
+    fn flush(&mut self) -> std::io::Result<()> {
+        Ok(())
+    }
+}
+
 fn check<T: Case>(report: &mut Report, sub: &str, seed: u64, root: &str, v: &T) {
     let node = v.as_node();
     let wire = v.wire();
@@ -137,6 +155,7 @@ fn check<T: Case>(report: &mut Report, sub: &str, seed: u64, root: &str, v: &T) 
         shown: trunc(&node.canon()),
     };
 
+    let short_limit = (seed % 97) as usize;
     // ---- JSON encoders
     let mut encodings: Vec<(&str, Vec<u8>)> = vec![];
     match guarded(|| json::to_vec(v)) {
@@ -162,6 +181,15 @@ fn check<T: Case>(report: &mut Report, sub: &str, seed: u64, root: &str, v: &T) 
         Ok(Ok(b)) => encodings.push(("to_writer", b)),
         Ok(Err(e)) => p.fail("json/to_writer", "encode-error", e.to_string()),
         Err(e) => p.fail("json/to_writer", "panic", e),
+    }
+    // a writer that takes short writes (sockets, pipes): the whole document must still arrive
+    match guarded(|| {
+        let mut w = ShortWriter { out: vec![], limit: 1 + (short_limit % 7) };
+        json::to_writer(&mut w, v).map(|_| w.out)
+    }) {
+        Ok(Ok(b)) => encodings.push(("to_writer-short", b)),
+        Ok(Err(e)) => p.fail("json/to_writer-short", "encode-error", e.to_string()),
+        Err(e) => p.fail("json/to_writer-short", "panic", e),
     }
     match guarded(|| {
         let mut buf = vec![];
@@ -231,6 +259,14 @@ fn check<T: Case>(report: &mut Report, sub: &str, seed: u64, root: &str, v: &T) 
         Ok(Err(e)) => p.fail("smile/to_writer", "encode-error", e.to_string()),
         Err(e) => p.fail("smile/to_writer", "panic", e),
     }
+    match guarded(|| {
+        let mut w = ShortWriter { out: vec![], limit: 1 + (short_limit % 5) };
+        smile::to_writer(&mut w, v).map(|_| w.out)
+    }) {
+        Ok(Ok(b)) => encodings.push(("to_writer-short", b)),
+        Ok(Err(e)) => p.fail("smile/to_writer-short", "encode-error", e.to_string()),
+        Err(e) => p.fail("smile/to_writer-short", "panic", e),
+    }
     for (enc, bytes) in &encodings {
         let cell = format!("smile/{}/model", enc);
         p.seen(&cell);
@@ -263,7 +299,7 @@ fn check<T: Case>(report: &mut Report, sub: &str, seed: u64, root: &str, v: &T) 
             smile::server_from_reader::<_, T>(&bytes[..]).map_err(|e| e.to_string())
         });
     }
-    if encodings.len() == 2 && encodings[0].1 != encodings[1].1 {
+    if encodings.windows(2).any(|w| w[0].1 != w[1].1) {
         p.fail("smile/to_writer", "encoders-disagree", String::new());
     }
 }
